@@ -15,7 +15,9 @@ var hostPool = []string{"a.test", "shop.example", "hop.example", "s.test", "x", 
 var segPool = []string{"p", "P", "a", "ab", "a.b", "a-b", "~u", "a%2Fb", "a%2fb", "a%3Fb", "%C3%A9", "%E9", "a%20b", "a;b", "a:b", "a@b", "a=b", "80", "s",
 	// long segments: store keys of 190 to 260 bytes, around the file-name limits of the file-system backend
 	strings.Repeat("L", 165), strings.Repeat("M", 195), strings.Repeat("N", 235)}
-var queryPool = []string{"", "x=1", "x=1&y=2", "y=2&x=1", "q=%7e", "q=~", "q=%E9", "q=%C3%A9", "q=a%2Fb", "q=a/b", "q=%3F", "q=?", "X=1", "x", "x=", "80", "q=\xe9", "q=caf\xe9&x=\xff"}
+var queryPool = []string{"", "x=1", "x=1&y=2", "y=2&x=1", "q=%7e", "q=~", "q=%E9", "q=%C3%A9", "q=a%2Fb", "q=a/b", "q=%3F", "q=?", "X=1", "x", "x=", "80", "q=\xe9", "q=caf\xe9&x=\xff",
+	// an escape that is cut short at the end of the query (url.Parse does not validate a query): bytes like any other
+	"q=100%2", "cursor=abc%3", "p=50%", "%a"}
 
 type urlParts struct {
 	scheme, host, port string
@@ -148,7 +150,16 @@ func (g *G) lookAlike(u urlParts) string {
 	v := u
 	v.segs = append([]string{}, u.segs...)
 	for tries := 0; tries < 8; tries++ {
-		switch g.r.Intn(18) {
+		switch g.r.Intn(19) {
+		case 18: // a trailing dot is a byte of the host: "a.test." is not "a.test" (not one of the §6.2.2–6.2.3 normalisations)
+			if strings.HasSuffix(u.host, "]") {
+				continue
+			}
+			if strings.HasSuffix(u.host, ".") {
+				v.host = strings.TrimSuffix(u.host, ".")
+			} else {
+				v.host = u.host + "."
+			}
 		case 0: // other scheme, same text otherwise
 			v.scheme = map[string]string{"http": "https", "https": "http"}[u.scheme]
 		case 1: // boundary shift scheme|host: http://sX  vs  https://X
